@@ -5,7 +5,29 @@ import (
 	"strconv"
 )
 
+func (fr *frame) blobOrParse(v value) *jnode {
+	if b := blobOf(v); b != nil {
+		return b
+	}
+	n, err := parseJSON(bytesOf(v))
+	if err != nil {
+		return nil
+	}
+	return n
+}
+
 func init() {
+	pureEqual := intrinsics["bytes.Equal"]
+	intrinsics["bytes.Equal"] = func(fr *frame, args []value) value {
+		if blobOf(args[0]) != nil || blobOf(args[1]) != nil {
+			a, b := fr.blobOrParse(args[0]), fr.blobOrParse(args[1])
+			if a == nil || b == nil {
+				return false
+			}
+			return fr.jsonEqual(a, b)
+		}
+		return pureEqual(fr, args)
+	}
 	intrinsics["slices.overlaps"] = func(fr *frame, args []value) value { return false }
 	intrinsics["(*bytes.Buffer).String"] = func(fr *frame, args []value) value {
 		p, ok := args[0].(*value)
